@@ -140,6 +140,53 @@ func (r *Run) depth(st *State, fn *ssa.Function) (int, bool) {
 	return len(st.Frames), rec
 }
 
+// afterCall: ghost definitions attached to a call site of the function being analysed:
+//   after-call CALLEE#n assume label : expr      after-call CALLEE#n update : lhs := rhs [if cond]
+// with ret0.. (results) and arg0.. bound. Used to tie rigid ghost histories to library results.
+func (r *Run) afterCall(st *State, fr *Frame, callee string, args []Val, res []Val, sig *types.Signature, in ssa.Instruction) {
+	e := r.e
+	blk := e.cs.Funcs[e.fnName[fr.Fn]]
+	if blk == nil {
+		return
+	}
+	cls := blk.All("after-call")
+	if len(cls) == 0 {
+		return
+	}
+	ord := e.callOrdinal(fr.Fn, in, callee)
+	site := fmt.Sprintf("%s#%d", callee, ord)
+	for _, cl := range cls {
+		if len(cl.Words) < 2 || cl.Words[0] != site {
+			continue
+		}
+		extra := map[string]SV{}
+		for i, a := range args {
+			extra[fmt.Sprintf("arg%d", i)] = SV{V: a}
+		}
+		for i, v := range res {
+			sv := SV{V: v}
+			if sig != nil && i < sig.Results().Len() {
+				sv.T = sig.Results().At(i).Type()
+			}
+			extra[fmt.Sprintf("ret%d", i)] = sv
+		}
+		switch cl.Words[1] {
+		case "assume":
+			x, err := parseSpec(cl.Expr)
+			if err != nil {
+				e.fail("%v", err)
+				continue
+			}
+			c := e.clauseCtx(st, fr, extra)
+			c.inLoop = true
+			st.assume(c.boolTerm(x))
+			e.note("ghost definition at %s in %s: %s", site, e.fnName[fr.Fn], cl.Expr)
+		case "update":
+			r.applyUpdateAtExit(st, fr, cl, extra)
+		}
+	}
+}
+
 // atCall: caller-side assertions about one call site (`at-call callee#n label : expr`, args as arg0..).
 func (r *Run) atCall(st *State, fr *Frame, callee string, args []Val, sig *types.Signature, in ssa.Instruction) {
 	e := r.e
